@@ -5,11 +5,11 @@ import SpoxModel.Model.Ctx
 namespace Generated.CtxIR
 open Ctx
 
-/-- `type_warning_level` (global `None`) -/
-def ir0 : List Stmt := [.opaque]
+/-- `type_warning_level` (global `spox._node._TYPE_WARNING_LEVEL`) -/
+def ir0 : List Stmt := [.savePrev, .setArg, .tryFinally [.yield_] [.restorePrev]]
 
-/-- `value_prop_backend` (global `None`) -/
-def ir1 : List Stmt := [.opaque]
+/-- `value_prop_backend` (global `spox._value_prop._VALUE_PROP_BACKEND`) -/
+def ir1 : List Stmt := [.savePrev, .setArg, .tryFinally [.yield_] [.restorePrev]]
 
 /-- `operator_overloading` (global `Var._operator_dispatcher`) -/
 def ir2 : List Stmt := [.savePrev, .setArg, .tryFinally [.yield_] [.restorePrev]]
